@@ -203,9 +203,9 @@ def _wrap_solve(orig):
                 MON.metering = False
                 try:
                     after = (self.rewards, self.players, self.transition_list, self.final_states)
-                    if after != before:
+                    if after != before or repr(after) != repr(before):       # equal values of another kind (Fraction -> float) count as changed
                         names = ["rewards", "players", "transition_list", "final_states"]
-                        diff = [nm for nm, a, b in zip(names, after, before) if a != b]
+                        diff = [nm for nm, a, b in zip(names, after, before) if a != b or repr(a) != repr(b)]
                         MON.event("alias", {"changed": diff, "prune": bool(self.prune_states),
                                             "raised": type(raised).__name__ if raised else None,
                                             "before": _small(before[2]), "after": _small(copy.deepcopy(after[2]))})
